@@ -34,8 +34,8 @@ CONSTANT P
 \*       ops      : set of binary operators usable in simple expressions
 \*       events   : 0 | 1 | 2 ]
 
-VARIABLES phase, stk, n, prog, m, fuel, hist
-vars == <<phase, stk, n, prog, m, fuel, hist>>
+VARIABLES phase, stk, n, prog, m, fuel, hist, inj
+vars == <<phase, stk, n, prog, m, fuel, hist, inj>>
 
 \* ---------- tree constructors (annotation fields present, filled by Resolve) ----------
 Num(c) == [k |-> "num", v |-> 4 * c]
@@ -113,6 +113,8 @@ Live == IF Cur.stmts = <<>> \/ Has("dead") THEN TRUE
 \* the functions a new block may promise: at most one, and only a name not already visible further out
 \* in the same function (keeps the space small; shadowing of functions is exercised by nested blocks)
 Promises == {{}} \cup {{f} : f \in P.funs}
+\* bodies of if / loop / function promise nothing unless the profile has "nestdef"
+BodyPromises == IF "nestdef" \in P.kinds THEN Promises ELSE {{}}
 
 GenSimple ==
   /\ phase = "gen" /\ Room /\ Live
@@ -144,30 +146,66 @@ GenSimple ==
      \/ /\ Has("brk") /\ InLoop /\ Len(Cur.stmts) >= 1 /\ AddStmt(Brk(id))
      \/ /\ Has("cont") /\ InLoop /\ Len(Cur.stmts) >= 1 /\ AddStmt(Cont(id))
   /\ n' = n + 1
-  /\ UNCHANGED <<phase, prog, m, fuel, hist>>
+  /\ UNCHANGED <<phase, prog, m, fuel, hist, inj>>
 
 GenOpen ==
   /\ phase = "gen" /\ Room /\ Deep /\ Live
   /\ LET id == n + 1 IN
      \/ /\ Has("block") /\ \E D \in Promises : stk' = Append(stk, Open("block", id, D, {}, <<>>)) /\ n' = n + 1
-     \/ /\ Has("if") /\ \E c \in Conds(id) : stk' = Append(stk, Open("if", id, {}, {}, [c |-> c])) /\ n' = n + 1
+     \/ /\ Has("if") /\ \E c \in Conds(id), D \in BodyPromises : stk' = Append(stk, Open("if", id, D, {}, [c |-> c])) /\ n' = n + 1
      \/ \* a loop comes with its counter: `make iK get 0` before it, `iK get iK add 1` first in its body
-        /\ Has("loop") /\ n + 3 <= P.maxStmts
+        \* (it counts as three statements, or as one in profiles with "cheaploop")
+        /\ Has("loop") /\ n + (IF Has("cheaploop") THEN 1 ELSE 3) <= P.maxStmts
         /\ LET ctr == CounterName(Len(stk))
-               mk == Make(id, ctr, Num(0))
-               inc == Set(id + 2, ctr, Bin("add", Var(ctr), Num(1)))
+               cheap == Has("cheaploop")
+               mk == Make(IF cheap THEN 6000 + id ELSE id, ctr, Num(0))
+               inc == Set(IF cheap THEN 7000 + id ELSE id + 2, ctr, Bin("add", Var(ctr), Num(1)))
                cnd == Bin("lt", Var(ctr), Num(2))
-           IN stk' = Append([stk EXCEPT ![Len(stk)].stmts = Append(@, mk), ![Len(stk)].decl = @ \cup {ctr}],
-                            [Open("loop", id + 1, {}, {}, [c |-> cnd]) EXCEPT !.stmts = <<inc>>])
-        /\ n' = n + 3
+           IN \E D \in BodyPromises :
+              stk' = Append([stk EXCEPT ![Len(stk)].stmts = Append(@, mk), ![Len(stk)].decl = @ \cup {ctr}],
+                            [Open("loop", IF cheap THEN id ELSE id + 1, D, {}, [c |-> cnd]) EXCEPT !.stmts = <<inc>>])
+        /\ n' = n + (IF Has("cheaploop") THEN 1 ELSE 3)
      \/ \* definition of a function this block promised
         /\ Has("def") /\ \E f \in Cur.funs \ Cur.defd :
              LET ps == IF P.arity[f] = 0 THEN <<>> ELSE IF Has("arrfn") THEN <<"b">> ELSE IF P.ty = "str" THEN <<"s">> ELSE <<"k">>
                  guard == [k |-> "if", id |-> 2000 + id, c |-> Bin("lt", Var("k"), Num(1)), t |-> <<Ret(3000 + id, Atom(id))>>, f |-> <<>>]
-             IN stk' = Append([stk EXCEPT ![Len(stk)].defd = @ \cup {f}],
-                              [Open("def", id, {}, {ps[j] : j \in 1..Len(ps)}, [f |-> f, ps |-> ps])
+             IN \E D \in BodyPromises :
+                stk' = Append([stk EXCEPT ![Len(stk)].defd = @ \cup {f}],
+                              [Open("def", id, D, {ps[j] : j \in 1..Len(ps)}, [f |-> f, ps |-> ps])
                                  EXCEPT !.stmts = IF ps = <<>> \/ P.ty = "str" \/ Has("arrfn") THEN <<>> ELSE <<guard>>])
         /\ n' = n + 1
+  /\ UNCHANGED <<phase, prog, m, fuel, hist, inj>>
+
+\* ---------- C09: one violation of one static rule, injected at any position and nesting ----------
+\* (profiles with "inject"; `inj` remembers which rule was broken: the expected verdict)
+Bad(id, rule) ==
+  CASE rule = "undeclared-variable" -> {Shout(id, Var("zz")), Shout(id, Interp("zz"))} \cup {ExprS(id, Call(f, <<Var("zz")>>)) : f \in {g \in VisibleFuns : P.arity[g] = 1}}
+    [] rule = "assign-undeclared" -> {Set(id, "zz", Atom(id))}
+    [] rule = "undeclared-function" -> {ExprS(id, Call("gg", <<>>)), Shout(id, Call("gg", <<Atom(id)>>))}
+    [] rule = "arity" -> {ExprS(id, Call(f, IF P.arity[f] = 0 THEN <<Atom(id)>> ELSE <<>>)) : f \in VisibleFuns}
+    [] rule = "break-outside-loop" -> IF InLoop THEN {} ELSE {Brk(id)}
+    [] rule = "continue-outside-loop" -> IF InLoop THEN {} ELSE {Cont(id)}
+    [] rule = "return-outside-function" -> IF InFun THEN {} ELSE {Ret(id, Atom(id))}
+    [] rule = "reserved-name" -> {Make(id, "shout", Atom(id)), Make(id, "typeof", Atom(id))}
+    [] rule = "type" -> {Shout(id, Bin("minus", StrC(1), Num(1))), Shout(id, Bin("lt", StrC(1), Num(1))), Shout(id, Bin("and", Num(1), [k |-> "bool", v |-> TRUE])),
+                         Shout(id, [k |-> "un", op |-> "not", e |-> Num(1)]), Shout(id, [k |-> "un", op |-> "neg", e |-> StrC(1)]),
+                         [k |-> "if", id |-> id, c |-> Num(1), t |-> <<Shout(id + 500, Num(1))>>, f |-> <<>>],
+                         Shout(id, Idx(Num(1), Num(0))), Shout(id, Idx(ArrE(<<Num(1)>>), StrC(1)))}
+    [] OTHER -> {}
+Rules == {"undeclared-variable", "assign-undeclared", "undeclared-function", "arity", "break-outside-loop", "continue-outside-loop",
+          "return-outside-function", "reserved-name", "type", "duplicate-function", "duplicate-parameter"}
+GenInject ==
+  /\ phase = "gen" /\ Has("inject") /\ inj = "none" /\ Room /\ Live
+  /\ LET id == n + 1 IN
+     \/ \E rule \in Rules \ {"duplicate-function", "duplicate-parameter"} : \E s \in Bad(id, rule) : AddStmt(s) /\ inj' = rule
+     \/ \* a second definition of a function this block has already defined
+        /\ Cur.defd # {} /\ \E f \in Cur.defd :
+             AddStmt([k |-> "def", id |-> id, d |-> 10 * id, n |-> f, site |-> 0, ps |-> <<>>, pd |-> <<>>, psites |-> <<>>, b |-> <<Ret(id + 500, Atom(id))>>])
+        /\ inj' = "duplicate-function"
+     \/ /\ AddStmt([k |-> "def", id |-> id, d |-> 10 * id, n |-> "dd", site |-> 0, ps |-> <<"k", "k">>, pd |-> <<10 * id + 1, 10 * id + 2>>, psites |-> <<0, 0>>,
+                      b |-> <<Ret(id + 500, Atom(id))>>])
+        /\ inj' = "duplicate-parameter"
+  /\ n' = n + 1
   /\ UNCHANGED <<phase, prog, m, fuel, hist>>
 
 Wrap(e) ==
@@ -188,7 +226,7 @@ GenClose ==
      \/ \* `if` continues with `if not so`
         /\ e.kind = "if" /\ Has("else")
         /\ stk' = Append(below, Open("else", e.id, {}, {}, [c |-> e.hdr.c, t |-> e.stmts]))
-  /\ UNCHANGED <<phase, n, prog, m, fuel, hist>>
+  /\ UNCHANGED <<phase, n, prog, m, fuel, hist, inj>>
 
 Cfg == [skip |-> {}, skipf |-> {}, env |-> P.events >= 2]
 GenFinish ==
@@ -198,16 +236,16 @@ GenFinish ==
   /\ m' = Init0(prog', Cfg)
   /\ fuel' = P.fuel
   /\ stk' = <<>>
-  /\ UNCHANGED <<n, hist>>
+  /\ UNCHANGED <<n, hist, inj>>
 
 Run ==
   /\ phase = "run" /\ m.st = "run" /\ fuel > 0
   /\ m' = Step(m)
   /\ fuel' = fuel - 1
   /\ hist' = IF P.events >= 1 /\ m'.e # <<>> THEN Append(hist, m'.e) ELSE hist
-  /\ UNCHANGED <<phase, stk, n, prog>>
+  /\ UNCHANGED <<phase, stk, n, prog, inj>>
 
-Init == /\ phase = "gen" /\ n = 0 /\ prog = <<>> /\ fuel = 0 /\ hist = <<>>
+Init == /\ phase = "gen" /\ n = 0 /\ prog = <<>> /\ fuel = 0 /\ hist = <<>> /\ inj = "none"
         /\ m = [st |-> "none"]
         \* a profile may fix a prelude: statements (with the names they declare) every program starts with
         \* ... and may start inside an already open loop (`preLoop`): make i1 get 0 / jasi (i1 small pass 2) start i1 get i1 add 1 ...
@@ -218,13 +256,13 @@ Init == /\ phase = "gen" /\ n = 0 /\ prog = <<>> /\ fuel = 0 /\ hist = <<>>
                           [Open("loop", 902, {}, {}, [c |-> Bin("lt", Var("i1"), Num(2))])
                              EXCEPT !.stmts = <<Set(903, "i1", Bin("add", Var("i1"), Num(1)))>>]>>
              ELSE stk = <<root>>
-Next == GenSimple \/ GenOpen \/ GenClose \/ GenFinish \/ Run
+Next == GenSimple \/ GenOpen \/ GenClose \/ GenInject \/ GenFinish \/ Run
 Spec == Init /\ [][Next]_vars
 
 Finished == phase = "run" /\ (m.st # "run" \/ fuel = 0)
 Emit == Finished => PrintT(ToJson([tag |-> "CASE", prog |-> prog, st |-> IF m.st = "run" THEN "Fuel" ELSE m.st,
                                    why |-> IF m.st \in {"Unspecified", "Unmodelled"} THEN m.e[2] ELSE "",
-                                   out |-> m.out, ev |-> hist]))
+                                   out |-> m.out, ev |-> hist, inj |-> inj, static |-> S!Check(prog)]))
 \* properties of the reference machine, checked on every state of every run
 MachineOk == phase = "run" => DoneClean(m) /\ EnvWellFormed(m)
 OutGrows == [][phase = "run" /\ phase' = "run" => Len(m.out) <= Len(m'.out) /\ SubSeq(m'.out, 1, Len(m.out)) = m.out]_vars
@@ -242,5 +280,7 @@ StmtsResolved(ss) == \A j \in 1..Len(ss) : LET s == ss[j] IN
     [] s.k = "loop" -> ExprResolved(s.c) /\ StmtsResolved(s.b)
     [] s.k \in {"block", "def"} -> StmtsResolved(s.b)
     [] OTHER -> TRUE
-GeneratedAreResolved == phase = "run" /\ fuel = P.fuel => StmtsResolved(prog)
+\* the static semantics agrees with how the program was built: well-formed => accepted, one injected violation => exactly that category
+StaticAgrees == phase = "run" /\ fuel = P.fuel => S!Check(prog) = (IF inj = "none" THEN {} ELSE {inj})
+GeneratedAreResolved == phase = "run" /\ fuel = P.fuel /\ inj = "none" => StmtsResolved(prog)
 =============================================================================
